@@ -39,8 +39,9 @@ Detail(n) ==
     [] n = "C02_EncodableMetadata" -> "non-utf8-binary-value"
     [] n = "C10_GracefulStopReturns" -> IF q.nsrv > 0 /\ q.stab = 0 THEN "idle-tunnel" ELSE ""
     \* Err() read at the very moment Done() fired, before the channel had recorded how it ended
-    [] n = "C04_ErrNilIffClean" -> IF tun.chEarly /\ tun.chErr = "err" /\ tun.firstCause \in {"close", "stop"}
-                                   THEN "err-read-before-close-recorded" ELSE ""
+    \* only the direction of finding D14: an error right at Done(), nil once settled, after a clean close
+    [] n = "C04_ErrStableAtDone" -> IF tun.chErr = "err" /\ tun.chSettled = "ok" /\ tun.firstCause \in {"close", "stop"}
+                                    THEN "canceled-at-done-nil-when-settled" ELSE ""
     [] OTHER -> ""
 
 \* record the first position per trace and formula
